@@ -6,6 +6,7 @@ import (
 	"fmt"
 
 	"github.com/scrapli/scrapligo/util"
+	"github.com/scrapli/scrapligo/util/simhook"
 )
 
 // GetPrompt returns a byte slice containing the current "prompt" of the connected ssh/telnet
@@ -20,6 +21,8 @@ func (c *Channel) GetPrompt() ([]byte, error) {
 	defer cancel()
 
 	go func() {
+		simhook.Enter("op.getprompt")
+
 		defer close(cr)
 
 		err := c.WriteReturn()
